@@ -22,6 +22,7 @@ func registerMore(m map[string]propSpec) {
 	m["C08"] = propSpec{Level: "model_checking", Engines: []engine{
 		{Harness: "reg", Overlay: "base", Name: "sched", Shards: 8},
 		{Harness: "reg", Overlay: "base", Name: "race", Race: true},
+		{Harness: "reg", Overlay: "base", Name: "hold", Shards: 3},
 	}}
 	m["C12"] = propSpec{Level: "model_checking", Engines: []engine{{Harness: "codec", Overlay: "base", Shards: 8}}}
 	m["C14"] = propSpec{Level: "model_checking", Engines: []engine{{Harness: "conv", Overlay: "base"}}}
@@ -32,6 +33,8 @@ func registerMore(m map[string]propSpec) {
 		{Harness: "unsol", Overlay: "base", Name: "content"},
 		{Harness: "unsol", Overlay: "base", Name: "abandon", Shards: 3},
 		{Harness: "unsol", Overlay: "base", Name: "restart", Shards: 2},
+		{Harness: "unsol", Overlay: "base", Name: "phases", Shards: 3},
+		{Harness: "unsol", Overlay: "base", Name: "queued", Shards: 2},
 	}}
 	m["C17"] = propSpec{Level: "fault_enumeration", Engines: []engine{
 		{Harness: "reg", Overlay: "base", Name: "names", Shards: 8},
